@@ -418,6 +418,11 @@ pub fn build_block(builder: &Node, keys: &[Key], spec: BlockSpec) -> Result<Bloc
             .bc
             .get_block(&spec.parent)
             .ok_or_else(|| "parent not stored in builder".to_string())?;
+        // the harness's own miner needs 2^difficulty hashes: beyond this the run is given up by its caller
+        // (a builder failure), never hung
+        if parent.difficulty > 18 {
+            return Err(format!("harness miner: difficulty {} too high", parent.difficulty));
+        }
         let g = mine_gt(parent.hash, parent.difficulty, creator, parent.id);
         let mut t = gt_tx(g, creator);
         t.generate(&creator.pk, 0, 0);
